@@ -63,7 +63,8 @@ def canonical (p : Program Float) : Program Float :=
   { main := relabelE m p.main, bodies := p.bodies.map (fun (id, b) => (m id, relabelE m b)) }
 
 /-- the decidable fields of `Props.C01.WFProgram` (all of them except `main0`, which holds by construction of
-`programOfTerm`) -/
+`programOfTerm`); `complete` and `distinct` are theorems now (`compile_complete`, `compile_distinct`) and are
+printed as a cross-check only; `balancedWF` = the hypothesis `WFBalanced` of `C06_compile_balanced` -/
 def wfReport (p : Program Float) : String :=
   let st := compileState Prog.empty p
   let ids := refIds st.done
@@ -74,8 +75,11 @@ def wfReport (p : Program Float) : String :=
   let distinct := patches.eraseDups.length == patches.length
   let wf := p.bodies.all (fun (_, b) => wfE b)
   let tail := tailR p.main
-  let all := complete && labels && covered && distinct && wf && tail
-  s!"wf={all} complete={complete} labels={labels} covered={covered} distinct={distinct} wfE={wf} tail={tail}"
+  let all := labels && covered && wf && tail
+  let tailEvery := p.bodies.all (fun (_, b) => wfE b && tailR b)
+  let closed := ids.all (fun q => (lookupBody p.bodies q.1).isSome)
+  let balancedWF := tailEvery && closed && labels
+  s!"wf={all} complete={complete} labels={labels} covered={covered} distinct={distinct} wfE={wf} tail={tail} balancedWF={balancedWF}"
 
 /-- the harness's DUMP line -> program (constants allocated in order of appearance) and entry jump index -/
 def parseDump (line : String) : Option (Prog Float × Nat) :=
